@@ -132,7 +132,12 @@ pub fn generate(seed: u64) -> Sc {
                 row.fx = Some((*r.pick(&["1", "0", "-1.25", "1.0000"])).to_string());
             }
             row.sell = r.chance(1, 4);
-            if r.chance(1, 2) {
+            // a return of capital carries a per-share amount in the row's currency and needs the same rate
+            row.roc = r.chance(1, 8);
+            if row.roc {
+                row.sell = false;
+            }
+            if !row.roc && r.chance(1, 2) {
                 row.commission = true;
                 match r.weighted(&[4, 2, 2, 1, 1, 1]) {
                     0 => {}
@@ -534,6 +539,9 @@ impl Engine for C12 {
             if rows.iter().any(|r| r.sell) {
                 st.bump("probe.app_sell_rows");
             }
+            if rows.iter().any(|r| r.roc && r.fx.is_none() && r.cur.as_ref().map(|c| c.trim().to_uppercase() == "USD").unwrap_or(false)) {
+                st.bump("probe.app_return_of_capital_in_usd_without_rate");
+            }
             crate::interpose::with_world(|w| w.fs.disk = crate::simfs::Disk::new());
             let obs = run_fx_process(FxPlan {
                 data: boc.clone(),
@@ -626,7 +634,7 @@ impl Engine for C12 {
                     st.bump("probe.console_run_printed_tables");
                     for (i, row) in rows.iter().enumerate() {
                         let is_usd_lookup = row.cur.as_ref().map(|c| c.trim().to_uppercase() == "USD").unwrap_or(false) && row.fx.is_none();
-                        if !is_usd_lookup || malformed_cfg {
+                        if !is_usd_lookup || malformed_cfg || row.roc {
                             continue;
                         }
                         if let Ok(((_, tr), _)) = &expected[i] {
@@ -915,6 +923,7 @@ impl Engine for C12 {
             "probe.console_run_printed_tables",
             "probe.app_rows_over_several_files",
             "probe.app_sell_rows",
+            "probe.app_return_of_capital_in_usd_without_rate",
             "probe.console_run_rejected_with_message",
             "fault.obs_malformed_on_lookup_path",
             "probe.degraded_network_runs",
